@@ -508,3 +508,75 @@ def find_grammar(ast, rel):
     macs = [m for m in ast.item_macros(rel) if m["path"].endswith("parser")]
     if len(macs) != 1: raise AnchorMissing("%s: expected one peg::parser! invocation, found %d" % (rel, len(macs)))
     return Grammar.from_macro(macs[0])
+
+
+# ---------------------------------------------------------------- PEG interpreter (exact PEG semantics, used for bounded cross-checks)
+def peg_match(g, e, s, pos, memo=None, rules=None):
+    """position after matching expression e at s[pos:], or None. Ordered choice, greedy possessive loops, lookahead."""
+    rules = rules if rules is not None else g.rules
+    e = _desugar(e)
+    k = e[0]
+    if k == "eps": return pos
+    if k == "fail": return None
+    if k == "lit": return pos + len(e[1]) if s.startswith(e[1], pos) else None
+    if k == "class":
+        if pos < len(s) and any(lo <= ord(s[pos]) <= hi for lo, hi in e[1]): return pos + 1
+        return None
+    if k == "any": return pos + 1 if pos < len(s) else None
+    if k == "seq":
+        for x in e[1]:
+            pos = peg_match(g, x, s, pos, memo, rules)
+            if pos is None: return None
+        return pos
+    if k == "alt":
+        for x in e[1]:
+            r = peg_match(g, x, s, pos, memo, rules)
+            if r is not None: return r
+        return None
+    if k in ("star", "plus"):
+        n = 0
+        while True:
+            r = peg_match(g, e[1], s, pos, memo, rules)
+            if r is None or r == pos: break
+            pos = r; n += 1
+        return pos if (k == "star" or n > 0) else None
+    if k == "opt":
+        r = peg_match(g, e[1], s, pos, memo, rules)
+        return pos if r is None else r
+    if k == "not": return pos if peg_match(g, e[1], s, pos, memo, rules) is None else None
+    if k == "and": return pos if peg_match(g, e[1], s, pos, memo, rules) is not None else None
+    if k == "call":
+        key = (e[1], pos)
+        if memo is not None and key in memo: return memo[key]
+        r = peg_match(g, rules[e[1]], s, pos, memo, rules)
+        if memo is not None: memo[key] = r
+        return r
+    raise GrammarError(k)
+
+
+def dfa_accepts(d, s):
+    st = 0
+    for ch in s:
+        c = ord(ch)
+        ai = None
+        for i, (lo, hi) in enumerate(d.atoms):
+            if lo <= c <= hi: ai = i; break
+        st = d.trans.get((st, ai))
+        if st is None: return False
+    return st in d.acc
+
+
+def bounded_compare(g, rule, ref, alphabet, maxlen, rules=None):
+    """compare full-match PEG acceptance of `rule` with the reference expression on every string over `alphabet` (list of
+    token strings) up to maxlen tokens. returns (number of strings, first difference or None)"""
+    from itertools import product
+    cuts = collect_cuts(ref, *[("lit", a) for a in alphabet])
+    dr = compile_dfa(ref, cuts)
+    n = 0
+    for L in range(0, maxlen + 1):
+        for toks in product(alphabet, repeat=L):
+            s = "".join(toks); n += 1
+            a = peg_match(g, ("call", rule), s, 0, {}, rules) == len(s)
+            b = dfa_accepts(dr, s)
+            if a != b: return n, (s, a, b)
+    return n, None
